@@ -15,6 +15,8 @@ mod s_build;
 mod s_params;
 mod s_repro;
 mod s_wrapper;
+mod s_build3d;
+mod s_cli;
 mod s_trace;
 
 fn main() {
@@ -46,6 +48,8 @@ fn main() {
         "ff" => s_ff::run(&mut out, seed, &tier),
         "sd" => s_sd::run(&mut out, seed, &tier),
         "trace" => s_trace::run(&mut out, &rest[0]),
+        "cli" => s_cli::run(&mut out, seed, &tier),
+        "build3d" => s_build3d::run(&mut out, seed, &tier),
         "wrapper" => s_wrapper::run(&mut out, seed, &tier),
         "repro" => s_repro::run(&mut out, seed, &tier),
         "params" => s_params::run(&mut out, seed, &tier),
